@@ -1,8 +1,12 @@
 package sim
 
 import (
+	"bytes"
+	"compress/gzip"
 	"fmt"
+	"io"
 	"math"
+	"strconv"
 	"strings"
 	"sync"
 
@@ -43,6 +47,7 @@ type C08Case struct {
 	served   dna.DistModel
 	RunFirst bool   `json:"run_first,omitempty"` // the run under test comes before the one-worker reference (a process that has computed nothing yet starts with several workers)
 	RelPol   int    `json:"rel_policy"`
+	Cli      string `json:"cli,omitempty"` // "", or the kind of output file ("plain", ".gz", "stdout") of `goalign compute distance` executed with the options of the case
 	Choices  []int  `json:"choices"`
 	RelCh    []int  `json:"rel_choices"`
 }
@@ -54,7 +59,7 @@ func init() { Register(c08{}) }
 func (c08) ID() string       { return "C08" }
 func (c08) New() interface{} { return &C08Case{} }
 func (c08) Rule() string {
-	return "each run: generated nucleotide alignment (2-17 rows x 1-60 columns, IUPAC codes, gaps, identical and saturated pairs), one of 7 models with options, 1-32 workers, a scheduling policy and a seeded choice at every synchronisation operation of the real DistMatrix goroutines; half of the runs inject a failing k-th Distance/Sequence call through the public DistModel interface; fault-free runs also compute a transformed presentation (column/row permutation, replication, integer weights, unit weights, reverse complement) under a different schedule, in 4 cases of 10 with the model object that already served for the run under test; 6 % of the alignments carry a residue outside the distance code (a refusal must not depend on workers, schedule or presentation); in half of the runs the run under test precedes the 1-worker reference; each tier ends with cold runs, one process per run. Distinct = distinct hash of the released (goroutine, site) sequence; non-trivial = at least 2 workers and at least 3 pairs."
+	return "each run: generated nucleotide alignment (2-17 rows x 1-60 columns, IUPAC codes, gaps, identical and saturated pairs), one of 7 models with options, 1-32 workers, a scheduling policy and a seeded choice at every synchronisation operation of the real DistMatrix goroutines; half of the runs inject a failing k-th Distance/Sequence call through the public DistModel interface; fault-free runs also compute a transformed presentation (column/row permutation, replication, integer weights, unit weights, reverse complement) under a different schedule, in 4 cases of 10 with the model object that already served for the run under test; 6 % of the alignments carry a residue outside the distance code (a refusal must not depend on workers, schedule or presentation); in half of the runs the run under test precedes the 1-worker reference; each tier ends with cold runs, one process per run. Distinct = distinct hash of the released (goroutine, site) sequence; non-trivial = at least 2 workers and at least 3 pairs. One fault-free run in ten without weights is followed by `goalign compute distance` executed through the command tree in the same process with the model, options, ranges and thread count of the case (output to a plain file, a .gz file or stdout): what it prints must be the matrix of the library call, row names and twelve decimals."
 }
 
 var dnaModels = []string{"jc", "k2p", "pdist", "rawdist", "f81", "f84", "tn93"}
@@ -248,6 +253,9 @@ func (c08) Gen(rs uint64, tier string, race bool) interface{} {
 	}
 	c.RunFirst = r.Bool()
 	c.Reuse = r.Chance(0.4)
+	if r.Chance(0.1) {
+		c.Cli = r.PickS("plain", "plain", ".gz", "stdout")
+	}
 	return c
 }
 
@@ -455,12 +463,18 @@ func (c08) Run(ctx *Ctx, ci interface{}) (o Outcome) {
 
 	// reference: one worker, FIFO schedule, no fault; the run under test before or after it
 	cfg := SchedCfg{Seed: c.Seed, Policy: c.Policy, Choices: c.Choices, Strict: ctx.Strict, MaxSteps: budget}
-	var run distRun
+	var run, ref distRun
+	defer func() {
+		if c.Cli != "" && o.V == nil && ctx.Diverged == "" && !faulty && c.Weights == nil && ref.sr.RootDone && ref.err == nil && ref.mat != nil {
+			c.runCLI(ctx, &o, ref.mat)
+		}
+	}()
 	if c.RunFirst {
 		run, _ = c.runDist(ctx, c.Rows, c.Weights, c.Cpus, cfg, c.FailDist, c.FailSeq)
 		o.Add("run_under_test_before_reference", 1)
 	}
-	ref, herr := c.runDist(ctx, c.Rows, c.Weights, 1, SchedCfg{Seed: 1, Policy: PolFIFO, MaxSteps: budget}, nil, nil)
+	var herr error
+	ref, herr = c.runDist(ctx, c.Rows, c.Weights, 1, SchedCfg{Seed: 1, Policy: PolFIFO, MaxSteps: budget}, nil, nil)
 	if herr != nil {
 		o.Add("harness_skip", 1)
 		return
@@ -952,4 +966,86 @@ func (c08) Shrink(ci interface{}) []interface{} {
 		add(func(n *C08Case) bool { n.RmGaps = false; return true })
 	}
 	return out
+}
+
+// runCLI executes `goalign compute distance` in this process on the alignment of the case, with its model,
+// options, ranges and thread count, and holds the matrix it prints - one line per row under the row's name,
+// twelve decimals - to the matrix the library call returned.
+func (c *C08Case) runCLI(ctx *Ctx, o *Outcome, want [][]float64) {
+	names := make([]string, len(c.Rows))
+	for i := range names {
+		names[i] = fmt.Sprintf("s%d", i)
+	}
+	files := map[string]string{"in.fa": fastaOf(names, c.Rows)}
+	out := map[string]string{"plain": "dist.txt", ".gz": "dist.txt.gz", "stdout": "stdout"}[c.Cli]
+	args := []string{"compute", "distance", "-m", c.Model, "-i", "in.fa", "-o", out, "-t", fmt.Sprint(c.Cpus),
+		"--rm-gaps=" + fmt.Sprint(c.RmGaps), "--gap-mut", fmt.Sprint(c.GapMut), "--rm-ambiguous=" + fmt.Sprint(c.RmAmbig)}
+	if c.Gamma {
+		args = append(args, "--alpha", strconv.FormatFloat(c.Alpha, 'g', -1, 64))
+	}
+	if c.Ranges != nil {
+		args = append(args, "--range1", fmt.Sprintf("%d:%d", c.Ranges[0], c.Ranges[1]), "--range2", fmt.Sprintf("%d:%d", c.Ranges[2], c.Ranges[3]))
+	}
+	res := runInProc(ctx, args, files, 1, 1700000000e9)
+	o.Add("command_line_executions", 1)
+	what := "goalign " + strings.Join(args, " ")
+	for _, p := range res.sr.Panics {
+		if p.Exit < 0 {
+			o.Fail("panic:cli:compute-distance", "%s: goroutine g%d panicked: %s\n%s", what, p.Gid, p.Panic, p.Stack)
+			return
+		}
+	}
+	if res.sr.Deadlock || res.sr.Budget {
+		o.Fail("hang:cli:compute-distance", "%s does not return: %s", what, res.sr.Stacks)
+		return
+	}
+	if res.err != nil || res.exit >= 0 {
+		o.Fail("cli-differs:error:compute-distance", "%s fails (%v, exit %d); the library call with the same options returned a matrix", what, res.err, res.exit)
+		return
+	}
+	name := out
+	if out == "stdout" {
+		name = "stdout.txt"
+	}
+	b, have := res.files[name]
+	if !have {
+		o.Fail("cli-differs:missing-output:compute-distance", "%s leaves no file %s", what, name)
+		return
+	}
+	if strings.HasSuffix(name, ".gz") {
+		zr, err := gzip.NewReader(bytes.NewReader(b))
+		if err == nil {
+			b, err = io.ReadAll(zr)
+		}
+		if err != nil {
+			o.Fail("cli-differs:unreadable-output:compute-distance", "%s: %s (%d bytes) is not a complete gzip file: %v", what, name, len(res.files[name]), err)
+			return
+		}
+	}
+	var wb strings.Builder
+	fmt.Fprintf(&wb, "%d\n", len(want))
+	for i := range want {
+		wb.WriteString(names[i])
+		for j := range want[i] {
+			fmt.Fprintf(&wb, "\t%.12f", want[i][j])
+		}
+		wb.WriteString("\n")
+	}
+	if string(b) != wb.String() {
+		gl, wl := strings.Split(string(b), "\n"), strings.Split(wb.String(), "\n")
+		k := 0
+		for k < len(gl) && k < len(wl) && gl[k] == wl[k] {
+			k++
+		}
+		g, w := "<end>", "<end>"
+		if k < len(gl) {
+			g = gl[k]
+		}
+		if k < len(wl) {
+			w = wl[k]
+		}
+		o.Fail("cli-differs:matrix:compute-distance", "%s prints a matrix that is not the one the library call returns for the same alignment and options: line %d is %q, expected %q", what, k+1, clip(g, 200), clip(w, 200))
+		return
+	}
+	o.Add("command_line_matrix_equals_library_matrix", 1)
 }
